@@ -104,7 +104,13 @@ class LRTDP(Plans):
 
         q_values = defaultdict(lambda : dict())
         policy_dict = {}
-        for s in self.res.V.keys():
+        # states can be labelled solved without ever being updated (so they are not in V);
+        # the returned policy must use the planner's own greedy action there too
+        labelled = [
+            s for s, solved in self.res.solved.items()
+            if solved and s not in self.res.V and not mdp.is_absorbing(s)
+        ]
+        for s in list(self.res.V.keys()) + labelled:
             policy_dict[s] = self.policy(mdp, s)
             for a in mdp.actions(s):
                 q_values[s][a] = self.Q(mdp, s, a)
